@@ -275,8 +275,8 @@ def gen_choice(ctx, rng, kind, constant=False):
         rule = " " * rng.randint(0, 2) + rule + " " * rng.randint(0, 2) if not constant else rule
     length = ""
     if kind == "fixed":
-        # a Constant's declared length has to contain the constant's own length (checked at declaration)
-        length = str(max(len(it) for it in items) + (0 if constant else rng.randint(0, 2)))
+        # the width of a fixed field is what its values are padded to: it may exceed the longest listed value
+        length = str(max(len(it) for it in items) + rng.randint(0, 2))
     for it in items:
         cells.append(it)
         flags.append(True)
@@ -314,6 +314,9 @@ def gen_datetime(ctx, rng, kind):
     if len(parts) == 2 and rng.random() < 0.2:
         parts.reverse()  # time before date
     rule = rng.choice([" ", "  ", ", ", "-", ""]).join(parts) if len(parts) == 2 else parts[0]
+    if kind == "excel" and not time_tokens and rng.random() < 0.4:
+        # the rule the documentation prescribes for date cells of Excel sheets, which render with this suffix
+        rule += F.EXCEL_MIDNIGHT
     layout = F.parse_layout(rule)
     tokens = date_tokens + time_tokens
 
